@@ -40,6 +40,23 @@ Proof.
   vm_compute. intros s H; inversion H; subst; clear H. repeat split; try discriminate.
 Qed.
 
+(* non-vacuity of C09_wakeup_per_item: two runners asleep, then f(0) adds items 1 and 2; each Add signals one of
+   them: two items queued, two runners (both Woken) on their way, nobody left asleep; after the first Add alone:
+   one item queued, one runner on its way, one still asleep -- the premise 0 < parked holds there *)
+Example ex_wakeup_one :
+  option_map (fun s => (pcs s, todo s, wakeup_ok s))
+    (run 3 ex_children [(1, 0); (2, 3); (0, 3); (1, 2)] (init_state 3 ex_inits)) =
+  Some ([Parked; Run 0 1; Woken], [1], true).
+Proof. vm_compute. reflexivity. Qed.
+Example ex_wakeup_two :
+  option_map (fun s => (pcs s, todo s, wakeup_ok s))
+    (run 3 ex_children [(1, 0); (2, 3); (0, 3); (1, 2); (1, 0)] (init_state 3 ex_inits)) =
+  Some ([Woken; Run 0 2; Woken], [1; 2], true).
+Proof. vm_compute. reflexivity. Qed.
+(* a state that VIOLATES the predicate (not reachable): an item queued, a runner asleep, nobody coming *)
+Example ex_wakeup_violated : wakeup_ok (mkState [Parked; Run 0 2; Parked] [1] [1; 0] 2 [0] []) = false.
+Proof. reflexivity. Qed.
+
 Example ex_n_ok : work_do_min_n <= 3. Proof. unfold work_do_min_n; lia. Qed.
 Example ex_U_nodup : NoDup ex_U. Proof. repeat constructor; simpl; intuition discriminate. Qed.
 Example ex_U_inits : forall i, In i ex_inits -> In i ex_U. Proof. simpl; intuition. Qed.
@@ -96,6 +113,7 @@ Qed.
 (* ---- par.Cache *)
 Definition ex_fval (k : nat) : option nat := match k with 2 => None | _ => Some (100 + k) end.
 Definition ex_nodeps (k : nat) : list nat := [].
+Definition ex_nocrash (k : nat) : bool := false.
 Definition ex_progs : list (list call) := [[CDo 0; CGet 1]; [CGet 0; CDo 0]; [CDo 1]].
 
 (* thread 0 computes key 0 while thread 1's Get(0) returns nil in the middle of f; thread 1's
@@ -114,7 +132,7 @@ Definition ex_csched : list nat :=
 Example ex_cache_run :
   option_map (fun s => (map rets (thrs s), map tpc (thrs s), plain s,
                         fbegins (ents s 0), fbegins (ents s 1)))
-             (crun ex_fval ex_nodeps ex_csched (cinit ex_progs)) =
+             (crun ex_fval ex_nodeps ex_nocrash ex_csched (cinit ex_progs)) =
   Some ([[(CGet 1, Some 101); (CDo 0, Some 100)];
          [(CDo 0, Some 100); (CGet 0, None)];
          [(CDo 1, Some 101)]],
@@ -125,8 +143,8 @@ Proof. vm_compute. reflexivity. Qed.
 
 (* while f_0 is running under the mutex, thread 1's Lock is not a step, but its Get was *)
 Example ex_cache_lock_blocks :
-  option_map (fun s => (cenabled ex_fval ex_nodeps s 0, cenabled ex_fval ex_nodeps s 1, cenabled ex_fval ex_nodeps s 2))
-             (crun ex_fval ex_nodeps [0; 0; 0; 0; 0; 0; 1; 1; 1; 1] (cinit ex_progs)) = Some (true, false, true).
+  option_map (fun s => (cenabled ex_fval ex_nodeps ex_nocrash s 0, cenabled ex_fval ex_nodeps ex_nocrash s 1, cenabled ex_fval ex_nodeps ex_nocrash s 2))
+             (crun ex_fval ex_nodeps ex_nocrash [0; 0; 0; 0; 0; 0; 1; 1; 1; 1] (cinit ex_progs)) = Some (true, false, true).
 Proof. vm_compute. reflexivity. Qed.
 
 (* nested Do: f_0 calls Do(1) and Do(2), f_1 calls Do(2) (as goproxytest's zip cache calls the archive
@@ -144,8 +162,8 @@ Definition ex_nsched : list nat :=
    0; 0; 0; 0; 0; 0; 0;                (* t0: Do(1) ... f_1 running, starts nested Do(2) *)
    0; 0].                              (* t0: Do(2): Load hit, Load1 = 0, now at Lock(2): blocked *)
 Example ex_nested_blocked :
-  option_map (fun s => (map tpc (thrs s), map stack (thrs s), cenabled ex_fval ex_deps s 0, cenabled ex_fval ex_deps s 1))
-             (crun ex_fval ex_deps ex_nsched (cinit ex_nprogs)) =
+  option_map (fun s => (map tpc (thrs s), map stack (thrs s), cenabled ex_fval ex_deps ex_nocrash s 0, cenabled ex_fval ex_deps ex_nocrash s 1))
+             (crun ex_fval ex_deps ex_nocrash ex_nsched (cinit ex_nprogs)) =
   Some ([DLock 2; DInF 2 0], [[(1, 1); (0, 1)]; []], false, true).
 Proof. vm_compute. reflexivity. Qed.
 
@@ -160,7 +178,7 @@ Definition ex_nsched_rest : list nat :=
    1; 1; 1].                            (* t1: Get(0) = 100 *)
 Example ex_nested_run :
   option_map (fun s => (map rets (thrs s), map nrets (thrs s), map (fun k => fbegins (ents s k)) [0; 1; 2], all_idle s))
-             (crun ex_fval ex_deps (ex_nsched ++ ex_nsched_rest) (cinit ex_nprogs)) =
+             (crun ex_fval ex_deps ex_nocrash (ex_nsched ++ ex_nsched_rest) (cinit ex_nprogs)) =
   Some ([[(CDo 0, Some 100)]; [(CGet 0, Some 100); (CDo 2, None)]],
         [[(2, None); (1, Some 101); (2, None)]; []], [1; 1; 1], true).
 Proof. vm_compute. reflexivity. Qed.
@@ -173,12 +191,49 @@ Proof. vm_compute. reflexivity. Qed.
 Definition ex_selfdeps (k : nat) : list nat := [k].
 Theorem self_dependency_deadlocks_refuted :
   exists (deps : nat -> list nat) (progs : list (list call)) (s : cstate),
-    creachable ex_fval deps progs s /\ all_idle s = false /\ forall t, cstep ex_fval deps s t = None.
+    creachable ex_fval deps ex_nocrash progs s /\ all_idle s = false /\ forall t, cstep ex_fval deps ex_nocrash s t = None.
 Proof.
   exists ex_selfdeps, [[CDo 0]].
-  destruct (crun ex_fval ex_selfdeps [0; 0; 0; 0; 0; 0; 0; 0; 0] (cinit [[CDo 0]])) as [s|] eqn:E; [|discriminate].
+  destruct (crun ex_fval ex_selfdeps ex_nocrash [0; 0; 0; 0; 0; 0; 0; 0; 0] (cinit [[CDo 0]])) as [s|] eqn:E; [|discriminate].
   exists s. split; [|split].
   - eapply crun_reachable; [apply creach_init|exact E].
   - vm_compute in E. inversion E; subst. reflexivity.
   - vm_compute in E. inversion E; subst. intros [|[|t]]; reflexivity.
 Qed.
+
+(* ---- an invocation of f that does not return (non-vacuity of C10_f_crash_never_reinvoked and of
+   C10_crashed_do_blocks_get_nil): f_0 panics / calls runtime.Goexit.  Thread 0's goroutine is gone with e.mu of key 0
+   held and done = 0; thread 1's Do(0) reaches the mutex and has no step; thread 2's Get(0) returns nil; f_0 began
+   once, never ended, and nobody can call it again *)
+Definition ex_crash0 (k : nat) : bool := Nat.eqb k 0.
+Definition ex_xprogs : list (list call) := [[CDo 0]; [CDo 0; CGet 1]; [CGet 0]].
+Definition ex_xsched : list nat := [0; 0; 0; 0; 0; 0; 0;  1; 1;  2; 2].
+Example ex_crash_run :
+  option_map (fun s => (map tpc (thrs s), map rets (thrs s),
+                        (fbegins (ents s 0), fends (ents s 0), orph (ents s 0), locked (ents s 0), isd (ents s 0)),
+                        map (cenabled ex_fval ex_nodeps ex_crash0 s) [0; 1; 2], all_idle s))
+             (crun ex_fval ex_nodeps ex_crash0 ex_xsched (cinit ex_xprogs)) =
+  Some ([Idle; DLock 0; Idle], [[]; []; [(CGet 0, None)]], (1, 0, 1, true, false), [false; false; false], false).
+Proof. vm_compute. reflexivity. Qed.
+
+Example ex_crash_reachable : forall s, crun ex_fval ex_nodeps ex_crash0 ex_xsched (cinit ex_xprogs) = Some s ->
+  creachable ex_fval ex_nodeps ex_crash0 ex_xprogs s /\ 0 < orph (ents s 0).
+Proof.
+  intros s H. split; [eapply crun_reachable; [apply creach_init|exact H]|].
+  vm_compute in H. inversion H; subst. simpl. lia.
+Qed.
+
+(* f_1 fails inside f_0's nested Do(1): the panic unwinds through both Do calls, both entries stay locked *)
+Definition ex_crash1 (k : nat) : bool := Nat.eqb k 1.
+Definition ex_xdeps (k : nat) : list nat := match k with 0 => [1] | _ => [] end.
+Example ex_crash_nested :
+  option_map (fun s => (map tpc (thrs s), map stack (thrs s), map (fun k => (fbegins (ents s k), orph (ents s k), locked (ents s k))) [0; 1]))
+             (crun ex_fval ex_xdeps ex_crash1 [0; 0; 0; 0; 0; 0; 0;  0; 0; 0; 0; 0; 0; 0] (cinit [[CDo 0; CGet 0]])) =
+  Some ([Idle], [[]], [(1, 1, true); (1, 1, true)]).
+Proof. vm_compute. reflexivity. Qed.
+
+(* keys are independent: a whole Do(1) by thread 2 leaves the entry of key 0 exactly as it was *)
+Example ex_keys_independent :
+  option_map (fun s => ents s 0) (crun ex_fval ex_nodeps ex_nocrash [0; 0; 0; 0; 0; 0] (cinit ex_progs)) =
+  option_map (fun s => ents s 0) (crun ex_fval ex_nodeps ex_nocrash ([0; 0; 0; 0; 0; 0] ++ [2; 2; 2; 2; 2; 2; 2; 2; 2; 2; 2]) (cinit ex_progs)).
+Proof. vm_compute. reflexivity. Qed.
